@@ -154,15 +154,15 @@ Definition m_submat_pinned (M : dense) (istart isize jstart jsize : Z) : res den
        lift (otab (ni * nj) (fun p => rdZ (dd M) (istart + Z.of_nat (p mod ni) + (jstart + Z.of_nat (p / ni)) * Z.of_nat (dnl M)))) (dn ni nj)
        else Undef
   else Throw.
-(* insertmat: guard + asserted element writes (same remark as subvect) *)
+(* insertmat (guard as repaired): asserted element writes, column by column: element p = i + B.nlin*j of B goes to (istart+i, jstart+j) *)
 Definition m_insertmat (M : dense) (istart jstart : Z) (B : dense) : res dense :=
   if (0 <=? istart) && (0 <=? jstart)
      && (istart + Z.of_nat (dnl B) <=? Z.of_nat (dnl M)) && (jstart + Z.of_nat (dnc B) <=? Z.of_nat (dnc M))
-  then lift (fold_left (fun ob p => match ob, rd (dd B) (didx B (fst p) (snd p)) with
-                                    | Some b, Some e => let s := didx M (Z.to_nat istart + fst p) (Z.to_nat jstart + snd p) in
+  then lift (fold_left (fun ob p => match ob, rd (dd B) p with
+                                    | Some b, Some e => let s := didx M (Z.to_nat istart + p mod dnl B) (Z.to_nat jstart + p / dnl B) in
                                                         if (s <? length b)%nat then Some (upd b s e) else None
                                     | _, _ => None end)
-                       (flat_map (fun j => map (fun i => (i, j)) (seq 0 (dnl B))) (seq 0 (dnc B))) (Some (dd M)))
+                       (seq 0 (dnl B * dnc B)) (Some (dd M)))
             (dn (dnl M) (dnc M))
   else Throw.
 Definition m_getcol (M : dense) (j : Z) : res (list Z) :=
